@@ -431,6 +431,12 @@ func c17exec(c *h.Ctx, cs *h.Case) {
 					obs = "harness-error"
 					break
 				}
+				if o == "timeout" {
+					// neither a dispatch nor the end of the connection within the patience (a swamped machine): no verdict
+					w.incon = "the raw TLS peer saw neither a dispatch nor the server hanging up"
+					obs = "harness-error"
+					break
+				}
 				obs = o
 				// the peer is the holder of key n[0]: it is served only if THAT key is valid — and only under its own name
 				held := w.refValid(n[0])
